@@ -209,7 +209,7 @@ def pmtm(x, NW=None, k=None, NFFT=None, e=None, v=None, method="adapt", show=Fal
         # This version uses the equations from [2] (P&W pp 368-370).
 
         # Wrap the data modulo nfft if N > nfft
-        sig2 = np.real(np.vdot(x, x)) / float(N)
+        sig2 = np.sum(np.abs(np.asarray(x) * 1.0) ** 2) / float(N)
         Sk = abs(np.fft.fft(np.multiply(tapers.transpose(), x), NFFT)) ** 2
         Sk = Sk.transpose()
         S = np.mean(Sk[:, 0:2], axis=1)  # Initial spectrum estimate (first two tapers)
